@@ -161,6 +161,13 @@ def run(ctx: Context) -> None:
         ctx.check('R08.3', vs is not None, "per dimension, a position counts when any cell of the mask at that position is True", cb, vs or inner or cb.node,
                   construct=f"occupied = {norm_text(vs.value) if vs is not None else 'not recognised'}")
         lo = mcb.stmt('$lo = next($i for $i, $v in enumerate($occ) if $v)', within=inner) if vs is not None else None
+        # or the positions of the True entries taken at once: first, and last + 1
+        pos_form = False
+        if vs is not None and lo is None:
+            pos = mcb.stmt('$pos = numpy.flatnonzero($occ.values)', within=inner) or mcb.stmt('$pos = numpy.flatnonzero($occ)', within=inner)
+            if pos is not None:
+                lo = mcb.stmt('$lo = int($pos[0])', within=inner) or mcb.stmt('$lo = $pos[0]', within=inner)
+                pos_form = lo is not None
         ctx.check('R08.3', lo is not None, "lower bound = position of the first True", cb, lo or cb.node, construct='lower = next(i for i, v in enumerate(occupied) if v)')
         hi = None
         if vs is not None:
@@ -168,6 +175,8 @@ def run(ctx: Context) -> None:
                         '$hi = next($occ.size - $j for $j, $w in enumerate(reversed($occ)) if $w)',
                         '$hi = len($occ) - next($j for $j, $w in enumerate(reversed($occ)) if $w)'):
                 hi = hi or mcb.stmt(alt, within=inner)
+            if pos_form:
+                hi = mcb.stmt('$hi = int($pos[-1]) + 1', within=inner) or mcb.stmt('$hi = $pos[-1] + 1', within=inner) or mcb.stmt('$hi = int($pos[-1] + 1)', within=inner)
         ctx.check('R08.3', hi is not None, "upper bound = (position of the last True) + 1 = len - (position from the end)", cb, hi or cb.node,
                   construct='upper = next(len(occupied) - i for i, v in enumerate(reversed(occupied)) if v)')
         sl = mcb.stmt('$bounds[$dim] = slice($lo, $hi)', within=inner) if lo is not None and hi is not None else None
